@@ -1,6 +1,6 @@
 (* C19 -- Floating-point constants keep their exact value.
    Statements only; every proof is one lemma of AV.XFloat.Facts. *)
-Require Import ZArith String.
+Require Import ZArith String Ascii.
 Require Import AV.Gen.XFloatParams AV.XFloat.LitShape AV.XFloat.Model AV.XFloat.Facts.
 Require Import AV.XFloat.TextShape AV.XFloat.TextModel AV.XFloat.TextFacts.
 Local Open Scope Z_scope.
@@ -191,3 +191,25 @@ Theorem dfloat_sprint_readback_partial :
       strtod (render printf_g (dfloatSprint sprint_default bits)) = Some bits.
 Proof. exact sprint_default_readback_all. Qed.
 Print Assumptions dfloat_sprint_readback_partial.
+
+(* ---- sexpr.c: the float atom writer and what the scanner accepts (/repo 5586a2c) ---- *)
+
+(* the current sexpr.c has the modelled SX_Float writer INCLUDING the '0' written after a
+   trailing point before the marker; the exponent markers of the scanner are "esfdlESFDL" *)
+Theorem sx_writer_shape :
+  XP.sx_writer_ok = true /\ XP.sx_pad_point = true /\ XP.sx_expt_markers = "esfdlESFDL"%string.
+Proof. exact sx_writer_shape_all. Qed.
+Print Assumptions sx_writer_shape.
+
+(* What the scanner accepts (TextModel.sx_float_token: [sign] {digit}* '.' {digit}+
+   [marker [sign] {digit}+]), trailing-point case: "%#.17g" prints a value in [1e16, 1e17)
+   (15 digits: [1e14, 1e15)) as 17 (15) integer digits and a bare point; for EVERY such
+   text [-]ds"." the atom the writer produces is a float token of the scanner.  (The other
+   printf shapes carry digits after the point; see TextFacts.ex_sx_tokens_accepted; that
+   printf only produces these shapes is libc's, named in C05's flo_atom_roundtrip.) *)
+Theorem sx_trailing_point_accepted :
+  forall (neg : bool) (ds : string) (mk : Ascii.ascii),
+    all_digits ds = true -> ds <> EmptyString -> (mk = "s"%char \/ mk = "e"%char) ->
+    sx_float_token (sx_mark mk ((if neg then "-" else "") ++ ds ++ ".")%string) = true.
+Proof. exact sx_trailing_point_accepted_all. Qed.
+Print Assumptions sx_trailing_point_accepted.
